@@ -159,14 +159,14 @@ def run(rep, model, tier, seed, broken=()):
             if f9_trigger(c):
                 nf9 += 1
                 continue
-            if f10_trigger(c) or missing_impl(c):
-                continue
+            if missing_impl(c):
+                continue      # trigger of known finding F26 (decls_followed = false)
             nhyp += 1
             o = oracle(model, c)
             if o:
                 nviol += 1
                 if nviol <= 2:
-                    c2 = pipe.shrink_ast(c, lambda x: not f9_trigger(x) and not f10_trigger(x) and not missing_impl(x) and oracle(model, x))
+                    c2 = pipe.shrink_ast(c, lambda x: not f9_trigger(x) and not missing_impl(x) and oracle(model, x))
                     rep.violation(dict(kind="include flags changed a doccomment entry", diff=oracle(model, c2) or o,
                                        case=pipe.case_json({k: v for k, v in c2.items() if k != "ast"}),
                                        oracle="metamorphic"))
